@@ -36,13 +36,13 @@ def main(tier_):
     var = run_tlc("MC_ErrTable.tla", "MC_C16_noretry.cfg", workers=8, timeout=900)
     if base["violated"]:
         v.notes.append("TLC: ErrTable model violates %s" % base["violated"])
-    kinds_all = ["enoent", "enotdir", "einval_fd", "einval_flags", "ebadf"]
+    kinds_all = ["enoent", "enotdir", "einval_fd", "einval_flags", "ebadf", "enosys", "exdev"]
     cases = []
     nh = 60 if quick else 600
     for i in range(nh):
         th = rnd.choice([2, 3, 3, 4, 6])
         ops = rnd.choice([2, 3, 4])
-        kinds = rnd.sample(kinds_all, rnd.randint(1, 5))
+        kinds = rnd.sample(kinds_all, rnd.randint(1, 7))
         cases.append(dict(id="hist-%d" % i, tree=[], feat={}, trace=False, calls=[dict(op="errtab_concurrent", threads=th, ops=ops, kinds=kinds)]))
     # several threads consume the same id at the same moment: "called once ... a second call returns NULL" -- at most one winner
     for i in range(2 if quick else 8):
